@@ -125,6 +125,11 @@ func infoFromCell(cell *hrpc.Cell) (hrpc.RegionInfo, error) {
 		!bytes.Equal(cell.Row[first+1:last], regInfo.StartKey) {
 		return nil, fmt.Errorf("region name doesn't match region info in %q", cell)
 	}
+	// ... and a region that ends at or before its start key covers nothing
+	// and would hide the regions behind it from the ones they overlap.
+	if len(regInfo.EndKey) != 0 && bytes.Compare(regInfo.StartKey, regInfo.EndKey) >= 0 {
+		return nil, fmt.Errorf("region ends before it starts in %q", cell)
+	}
 
 	return NewInfo(
 		regInfo.GetRegionId(),
